@@ -51,7 +51,7 @@ pub fn plan(prop: &str) -> Option<Plan> {
             v.push(p("Q1", 3000, 200_000));
             ("exploration", v, CONC_RULE)
         }
-        "C02" => ("exploration", vec![p("Q1", 40_000, 2_000_000)], SEQ_RULE),
+        "C02" => ("exploration", vec![p("Q1", 100_000, 3_000_000)], SEQ_RULE),
         "C03" => {
             let mut v = conc(6000, 600_000);
             v[2].quick = 14_000;
@@ -67,33 +67,33 @@ pub fn plan(prop: &str) -> Option<Plan> {
         }
         "C05" => {
             assumptions.push("strict persistency: every write before the crash point is durable, none after; volatile buffers come back zeroed");
-            let mut v = conc(1500, 100_000);
-            v.push(p("Q1crash", 5000, 300_000));
+            let mut v = conc(3500, 150_000);
+            v.push(p("Q1crash", 15_000, 500_000));
             ("fault_enumeration", v, "crash fault enumerated at every persistent write (and after every call return) of each explored history / interleaving; histories and interleavings themselves are seeded samples; distinct/non-trivial counted per run as for the sequential and concurrent families (a run is non-trivial if it has at least one persistent write, i.e. at least one mid-history crash point)")
         }
-        "C06" => ("exploration", vec![p("Q2", 1500, 0), p("Q2dense", 0, 8 * llfree::TREE_FRAMES as u64)], "one run = one (frame count, init mode, classing, slots) configuration driven through init, exhaustion / free-everything and all accounting views; distinct = distinct (frames, mode, slots); every run is non-trivial; schedule: single-thread"),
-        "C07" => ("exploration", vec![p("Q7", 20_000, 1_000_000)], SEQ_RULE),
-        "C08" => ("exploration", vec![p("Q6", 20_000, 1_000_000), p("QB", 20_000, 500_000)], SEQ_RULE),
-        "C09" => ("exploration", vec![p("Q1open", 40_000, 2_000_000)], SEQ_RULE),
+        "C06" => ("exploration", vec![p("Q2", 6000, 0), p("Q2dense", 0, 8 * llfree::TREE_FRAMES as u64)], "one run = one (frame count, init mode, classing, slots) configuration driven through init, exhaustion / free-everything and all accounting views; distinct = distinct (frames, mode, slots); every run is non-trivial; schedule: single-thread"),
+        "C07" => ("exploration", vec![p("Q7", 60_000, 1_500_000)], SEQ_RULE),
+        "C08" => ("exploration", vec![p("Q6", 50_000, 1_500_000), p("QB", 50_000, 500_000)], SEQ_RULE),
+        "C09" => ("exploration", vec![p("Q1open", 100_000, 3_000_000)], SEQ_RULE),
         "C10" => {
             let mut v = vec![p("Q9", 25_000, 1_000_000)];
             v.extend([p("K3", 3000, 200_000), p("K4", 3000, 200_000), p("K5", 3000, 200_000), p("K7", 3000, 200_000)]);
             ("exploration", v, SEQ_RULE)
         }
         "C11" => ("exploration", vec![p("Q3", 3000, 150_000)], SEQ_RULE),
-        "C12" => ("exploration", vec![p("Q4", 1500, 80_000)], "one run = one structured allocation pattern of a tree built through the lower-level API, then a directed search for every order from a hint in every row; distinct = distinct pattern bitmap; non-trivial = pattern has allocated frames; schedule: single-thread"),
+        "C12" => ("exploration", vec![p("Q4", 4000, 100_000)], "one run = one structured allocation pattern of a tree built through the lower-level API, then a directed search for every order from a hint in every row; distinct = distinct pattern bitmap; non-trivial = pattern has allocated frames; schedule: single-thread"),
         "C13" => {
             let mut v = conc(2500, 200_000);
             v.push(p("Q13", 15_000, 600_000));
             v.push(p("Q1", 8000, 300_000));
             ("exploration", v, CONC_RULE)
         }
-        "C14" => ("exploration", vec![p("Q1", 10_000, 600_000), p("Q5", 5000, 200_000), p("Q9", 5000, 200_000)], SEQ_RULE),
-        "C15" => ("exploration", vec![p("Q5", 25_000, 1_000_000), p("K4", 8000, 600_000)], SEQ_RULE),
-        "C17" => ("exploration", vec![p("Q8", 6000, 300_000)], "one run = one zone (size, aligned base address, classing) with NvmAlloc, ZoneAlloc and a plain LLFree driven in lock-step by a seeded history, then a cold restart; distinct = distinct (zone, history) hash; schedule: single-thread"),
+        "C14" => ("exploration", vec![p("Q1", 25_000, 800_000), p("Q5", 12_000, 300_000), p("Q9", 12_000, 300_000)], SEQ_RULE),
+        "C15" => ("exploration", vec![p("Q5", 60_000, 1_500_000), p("K4", 12_000, 600_000)], SEQ_RULE),
+        "C17" => ("exploration", vec![p("Q8", 15_000, 400_000)], "one run = one zone (size, aligned base address, classing) with NvmAlloc, ZoneAlloc and a plain LLFree driven in lock-step by a seeded history, then a cold restart; distinct = distinct (zone, history) hash; schedule: single-thread"),
         "C18" => {
             let mut v = conc(2500, 200_000);
-            v.extend([p("Q1open", 10_000, 500_000), p("Q2", 600, 20_000), p("Q6", 4000, 200_000), p("Q7", 3000, 200_000), p("QB", 3000, 100_000)]);
+            v.extend([p("Q1open", 10_000, 500_000), p("Q2", 600, 20_000), p("Q6", 4000, 200_000), p("Q7", 3000, 200_000), p("QB", 3000, 100_000), p("QM", 40_000, 2_000_000)]);
             assumptions.push("memory oracle of this tier: every metadata buffer is exactly metadata_size bytes and flush against a PROT_NONE guard page (alternating leading / trailing); an out-of-bounds access kills the worker");
             ("exploration", v, CONC_RULE)
         }
@@ -507,8 +507,11 @@ pub fn check(prop: &str, tier: &str) -> i32 {
     let mut known_hit: BTreeSet<String> = BTreeSet::new();
     let mut reported: Vec<J> = Vec::new();
     let ctx = Ctx::new();
-    // worker deaths by signal
-    for sc in &signal_cases {
+    // worker deaths by signal (report a few, the rest are the same story)
+    if signal_cases.len() > 3 {
+        println!("  {} workers were killed by a signal; reporting the first 3", signal_cases.len());
+    }
+    for sc in signal_cases.iter().take(3) {
         let fam = sc.gs("family").to_string();
         let (case, _) = Case::generate(&fam, sc.gu("run_seed"), sc.gu("run_index"), props_for(prop));
         let is_mem = prop == "C18";
